@@ -139,6 +139,7 @@ bool isDecimalNumber(const std::string& s, char dec, char scientificNotation)
 
   std::size_t sepCount = 0;
   std::size_t sciCount = 0;
+  std::size_t mantissaDigits = 0;
   std::size_t i = 0;
   if (s[0] == '-')
     i = 1;
@@ -150,6 +151,8 @@ bool isDecimalNumber(const std::string& s, char dec, char scientificNotation)
     else if (c == scientificNotation)
     {
       sciCount++;
+      if (mantissaDigits == 0)
+        return false; // Must be at least one digit before the exponent.
       if (i == s.size() - 1)
         return false; // Must be sthg after scientific notation.
       c = s[i + 1];
@@ -162,10 +165,12 @@ bool isDecimalNumber(const std::string& s, char dec, char scientificNotation)
     }
     else if (!isDecimalNumber(c))
       return false;
+    else if (sciCount == 0)
+      mantissaDigits++;
     if (sepCount > 1 || sciCount > 1)
       return false;
   }
-  return true;
+  return mantissaDigits > 0;
 }
 
 /******************************************************************************/
